@@ -306,7 +306,10 @@ impl ConnectionState {
                     notify_consumer_end(&tx, ConsumerMessage::ServerCancelled);
                 }
                 if !cancel.nowait {
-                    inner.push_method(n, AmqpBasic::CancelOk(CancelOk { consumer_tag }));
+                    inner.push_method_between_publishes(
+                        n,
+                        AmqpBasic::CancelOk(CancelOk { consumer_tag }),
+                    );
                 }
             }
             // Server ack for client-initiated consumer cancel.
